@@ -20,23 +20,21 @@ pub assume_specification<T, A: std::alloc::Allocator, F: FnMut(&T) -> bool> [Vec
 
 impl Breakpoints {
 //@fn src/debugger/breakpoint.rs "impl Breakpoints" new ret=r props=C11
-        ensures r.0@.len() == 0, bp_wf(r.0@),
+//@contract Breakpoints_new.c
 //@end
 
 //@fn src/debugger/breakpoint.rs "impl Breakpoints" len ret=r props=C11
-        ensures r == self.0.len(),
+//@contract Breakpoints_len.c
 //@end
 //@fn src/debugger/breakpoint.rs "impl Breakpoints" is_empty ret=r props=C11
-        ensures r == (self.0.len() == 0),
+//@contract Breakpoints_is_empty.c
 //@end
 
 //@fn src/debugger/breakpoint.rs "impl Breakpoints" get ret=r props=C11
 //@sub <<<for breakpoint in &self.0 {>>> ==> <<<for breakpoint in it: &self.0
             invariant forall|j: int| 0 <= j < it.index@ ==> self.0[j].address != address,
         {>>>
-        ensures
-            r is Some <==> bp_has(self.0@, address),
-            r matches Some(b) ==> b.address == address && self.0@.contains(b),
+//@contract Breakpoints_get.c
 //@end
 
 //@fn src/debugger/breakpoint.rs "impl Breakpoints" insert ret=r props=C11
@@ -55,28 +53,14 @@ impl Breakpoints {
             let other = &self.0[i];>>>
 //@sub <<<self.0.insert(index, breakpoint);>>> ==> <<<self.0.insert(index, breakpoint);
         proof { lemma_insert_bp(old(self).0@, index as int, breakpoint); }>>>
-        requires
-            bp_wf(old(self).0@),
-        ensures
-            bp_wf(final(self).0@),
-            r == bp_has(old(self).0@, breakpoint.address),
-            r ==> final(self).0@ == old(self).0@,
-            !r ==> exists|k: int| 0 <= k <= old(self).0@.len() && final(self).0@ == old(self).0@.insert(k, breakpoint),
-            forall|a: u16| bp_has(final(self).0@, a) <==> (bp_has(old(self).0@, a) || a == breakpoint.address),
+//@contract Breakpoints_insert.c
 //@end
 
 //@fn src/debugger/breakpoint.rs "impl Breakpoints" remove ret=r props=C11
 //@closure retain &Breakpoint bool
 //@sub <<<initial_len != self.0.len()>>> ==> <<<proof { lemma_filter_bp(old(self).0@, address); }
         initial_len != self.0.len()>>>
-        requires
-            bp_wf(old(self).0@),
-        ensures
-            bp_wf(final(self).0@),
-            r == bp_has(old(self).0@, address),
-            !bp_has(final(self).0@, address),
-            forall|a: u16| a != address ==> (bp_has(final(self).0@, a) <==> bp_has(old(self).0@, a)),
-            forall|i: int| 0 <= i < final(self).0@.len() ==> old(self).0@.contains(#[trigger] final(self).0@[i]),
+//@contract Breakpoints_remove.c
 //@end
 
 //@fn src/debugger/breakpoint.rs "impl Breakpoints" with_orig ret=r props=C11
@@ -95,14 +79,7 @@ impl Breakpoints {
             breakpoint.address += orig;
             verif_i += 1;
         }>>>
-        requires
-            bp_wf(self.0@),
-            forall|i: int| 0 <= i < self.0@.len() ==> self.0@[i].address + orig <= 0xFFFF,
-        ensures
-            bp_wf(r.0@),
-            r.0@.len() == self.0@.len(),
-            forall|i: int| 0 <= i < self.0@.len() ==> r.0@[i].address == self.0@[i].address + orig
-                && r.0@[i].is_predefined == self.0@[i].is_predefined,
+//@contract Breakpoints_with_orig.c
 //@end
 }
 
